@@ -923,6 +923,9 @@ func runC15(a runArgs) error {
 	// 3. ResetOptionsTo with (selections of) the receiver's own options
 	c15OwnFamily(e, rng, thorough)
 
+	// 3b. the scratch-and-retry wrappers Queries() (> 4 queries) and Clone() (> 64 bytes of values)
+	c15RetryFamily(e, thorough)
+
 	// 4. random sequences
 	nRand, maxLen := 150, 20
 	if thorough {
